@@ -114,7 +114,34 @@ def sweep(d, jobs=5):
     print(d, "CAUGHT by" if hit else "MISSED", hit, ("non-0/1 exits: %s" % other) if other else "")
 
 
+def own(d):
+    """run only the quick check of the property the seed targets against a scratch copy with the patch; writes own.json"""
+    import tempfile
+    meta = json.load(open(os.path.join(d, "meta.json")))
+    p = meta["property"]
+    base = tempfile.mkdtemp(prefix="pvc_own_", dir="/tmp")
+    try:
+        sh("rsync -a --exclude .git --exclude doc --exclude 'tutorials*' /repo/ %s/" % base)
+        ap = sh("cd %s && patch -p1 < %s" % (base, os.path.join(d, "patch.diff")))
+        if ap.returncode != 0:
+            print("patch failed", d)
+            return
+        env = dict(os.environ, PVC_REPO=base, PVC_OUT=os.path.join(base, "_out"), PVC_JOBS="8")
+        r = subprocess.run([os.path.join(VERIF, "check"), p], capture_output=True, text=True, cwd=VERIF, env=env)
+        viol = [l.split("obligation=")[-1][:220] for l in r.stdout.splitlines() if l.startswith("VIOLATION")]
+        res = {"property": p, "exit": r.returncode, "n_violations": len(viol), "violations": viol[:5],
+               "replayed": sum(1 for v in viol if not v.endswith("no-failing-input-found"))}
+    finally:
+        shutil.rmtree(base, ignore_errors=True)
+    json.dump(res, open(os.path.join(d, "own.json"), "w"), indent=1)
+    print(d, "OWN-CHECK", "CAUGHT" if res["exit"] == 1 else "exit %d" % res["exit"], res["violations"][:1])
+
+
 if __name__ == "__main__":
+    if sys.argv[1] == "own":
+        for d in sys.argv[2:]:
+            own(d)
+        sys.exit(0)
     if sys.argv[1] == "verify":
         verify(sys.argv[2])
     elif sys.argv[1] == "sweep":
